@@ -25,4 +25,5 @@ func registerStreams(m map[string]Stream) {
 	m["tdlive"] = tdLiveStream{}
 	m["session"] = sessionStream{}
 	m["tdbindwire"] = tdBindWireStream{}
+	m["hostile-live"] = hostileLiveStream{}
 }
